@@ -278,6 +278,7 @@ def collect(crate, body):
             cs = T.canon(e['pc'][-1], True) if e['pc'] else T.TRUE
             conj = cs[1] if isinstance(cs, tuple) and cs and cs[0] == 'and' else (cs,)
             s['when'] = canon_text(' && '.join(sorted(T.show(x) for x in conj)))
+            s['when_term'] = cs
         # sites of the time.rs conversion API keep the callee in their key (the obligation belongs to the call site);
         # sites reached through a private helper are keyed by the function they are analysed in (helper extraction /
         # inlining does not change a key)
